@@ -146,6 +146,14 @@ def gen_block(rng, places, bitplaces, wplaces, depth, nest):
 def gen_case(rng, depth):
     regs, vars_, locs = gen.gen_decls(rng, nregs=(0, 3), nvars=(2, 4),
                                       nlocs=(0, 2))
+    # a signed 32-bit register that is compared with 64-bit values at
+    # several places, the first of them on a path that may be skipped
+    twice = None
+    if rng.random() < 0.15:
+        free = [n for n in gen.FREE_REGS if n not in {r[0] for r in regs}]
+        if len(free) >= 2:
+            regs = regs + [[free[0], "sw"], [free[1], "sr"]]
+            twice = (f"r{free[0]}", f"r{free[1]}")
     # some variables with an explicit byte order
     for decl in vars_ + locs:
         if rng.random() < 0.12:
@@ -163,6 +171,23 @@ def gen_case(rng, depth):
     BITS.update({f"l:{n}": f[1] for n, f in bitlocs})
     wplaces = [p for p in places if p[0] != "r"] or places
     stmts = gen_block(rng, places, bitplaces, wplaces, depth, 3)
+    if twice:
+        a, b = ["p", twice[0]], ["p", twice[1]]
+        c0 = normalise(gen_atom(rng, [p for p in places
+                                      if p not in twice] or places,
+                                bitplaces, False))
+        inner = ["if", ["cmp", rng.choice(CMP), a, b],
+                 [["set", wplaces[0], ["c", 11]]], None]
+        first = ["if", c0, [inner], None] if rng.random() < 0.6 else \
+            ["if", ["and", normalise(c0, False),
+                    ["cmp", rng.choice(CMP), a, b]],
+             [["set", wplaces[0], ["c", 12]]], None]
+        second = ["if", ["cmp", rng.choice(CMP), a,
+                         b if rng.random() < 0.7 else
+                         ["c", rng.choice([-1, 0, 5, 1 << 40])]],
+                  [["set", wplaces[-1], ["c", 13]]],
+                  [["set", wplaces[-1], ["c", 14]]]]
+        stmts = [first, second] + stmts
     if not any(s[0] == "if" for s in stmts):
         c = normalise(gen_cond(rng, places, bitplaces, depth))
         stmts.append(["if", c, [["set", wplaces[0], ["c", 1]]],
@@ -261,7 +286,11 @@ def cond_triggers(spec, c, store):
         if a[0] != "cmp":
             continue
         L, R = a[2], a[3]
-        if (has_neg_sw(L) or has_neg_sw(R)) and \
+        # (a bare sw register on the left is widened by the comparison
+        # itself - in place, see the finding about that - and compares
+        # right; the recorded mechanism needs the register inside an
+        # expression, or on the right-hand side)
+        if ((has_neg_sw(L) and L[0] != "p") or has_neg_sw(R)) and \
                 (natural_long(R) or natural_long(L)):
             found.append("sw-register-negative-compared-in-64bit")
         if neg_and(L) or neg_and(R):
@@ -377,9 +406,12 @@ def attribute(spec, ref, bad, ifs, inputs):
         # signed operand sign-extends that register in place (golden
         # instruction list of test_short_comparison encodes it); every
         # later reader of the register sees the modified value
+        # (only a comparison that was reached on this input has touched its
+        # register: one inside a block that was skipped has not)
         dirty = set()
         for p2, s2 in ifs.items():
-            if order[p2] < order[path]:
+            if order[p2] < order[path] and \
+                    ref["markers"].get(p2, {}).get("A") != 0:
                 dirty |= inplace_extended(spec, s2[1])
         used = set()
         for t in dsl.Ref(spec).cond_trees(c):
